@@ -396,7 +396,10 @@ def assemble(funcs: list[dict], asm: dict, tag: str, cache_type: str | None = No
         if part["kind"] == "func":
             parts.append(build.make_pipefunc(fds[0], tag))
         else:
-            extra = {"cache_type": cache_type, "cache_kwargs": {}} if cache_type and j == 0 else {}
+            # (the receiver's cache is stated to be an unshared one - what a lazy pipeline's is anyway -, a setting every
+            # derivation hands on: no pipeline of the assembly starts a manager process, whatever its lazy flag turns out to be)
+            extra = ({"cache_type": cache_type, "cache_kwargs": {"shared": False} if cache_type in ("lru", "hybrid") else {}}
+                     if cache_type and j == 0 else {})
             parts.append(build.make_pipeline({"funcs": fds, "lazy": part["lazy"], **extra}, tag=tag))
     if pos != len(funcs) or (asm["op"] == "direct") != (len(parts) == 1):
         raise MachineryError(f"assembly does not fit the description: {asm}")
